@@ -751,7 +751,7 @@ func binary(p *Parser, left Expr) (Expr, error) {
 	}
 	opToken := *p.previous
 
-	expr, err := p.expressionWithPrec(p.rule(opToken.Tag).prec)
+	expr, err := p.expressionWithPrec(p.rule(opToken.Tag).prec + 1)
 	if err != nil {
 		return nil, err
 	}
